@@ -9,6 +9,7 @@ RULE = ("every generated (mode, input, script) case — generic reads, optional/
         "grant exactly what is asked (stingy), +2, +1000, grow in chunks of 1/2/3/7 octets, or grant pseudo-randomly within the contract. All "
         "answers (value/rejection and octets left) must be identical to the slice run and to the model; a look/extract/advance beyond the last "
         "grant makes the streaming source panic with CONTRACT. non-trivial = accepted by the slice run.")
+CROSS = {'C11': 2000, 'C16': 2000, 'C10': 1500}   # cross streams: samples of neighbouring properties' request streams (outcomes, model <-> implementation)
 EXHAUSTIVE = {"quick": False, "thorough": False}
 EXHAUSTIVE_NOTE = {"quick": "", "thorough": ""}
 ASSUMPTIONS = ["sources outside the harness's families are covered by the theorem only through the trait contract as modelled"]
